@@ -32,6 +32,13 @@ pub(crate) struct Thread {
     /// Number of times the thread yielded
     pub yield_count: usize,
 
+    /// An `unpark` that has not been consumed by a `park` yet.
+    ///
+    /// The token is kept apart from `state`: `state` is overwritten whenever
+    /// the thread blocks on, or is woken by, a lock, a channel, a join, ...
+    /// and none of that may consume or lose the token.
+    pub(super) park_token: bool,
+
     locals: LocalMap,
 
     /// `tracing` span used to associate diagnostics with the current thread.
@@ -75,7 +82,7 @@ impl Id {
 
 #[derive(Debug, Clone, Copy)]
 pub(crate) enum State {
-    Runnable { unparked: bool },
+    Runnable,
     Blocked(#[allow(dead_code)] Location),
     Yield,
     Terminated,
@@ -93,7 +100,7 @@ impl Thread {
         Thread {
             id,
             span: tracing::info_span!(parent: parent_span.id(), "thread", id = id.id),
-            state: State::Runnable { unparked: false },
+            state: State::Runnable,
             critical: false,
             operation: None,
             causality: VersionVec::new(),
@@ -101,16 +108,17 @@ impl Thread {
             dpor_vv: VersionVec::new(),
             last_yield: None,
             yield_count: 0,
+            park_token: false,
             locals: HashMap::new(),
         }
     }
 
     pub(crate) fn is_runnable(&self) -> bool {
-        matches!(self.state, State::Runnable { .. })
+        matches!(self.state, State::Runnable)
     }
 
     pub(crate) fn set_runnable(&mut self) {
-        self.state = State::Runnable { unparked: false };
+        self.state = State::Runnable;
     }
 
     pub(crate) fn set_blocked(&mut self, location: Location) {
@@ -155,14 +163,35 @@ impl Thread {
         self.set_unparked();
     }
 
-    /// Unpark a thread's state. If it is already runnable, store the unpark for
-    /// a future call to `park`.
+    /// True if the thread is blocked in `park` (as opposed to being blocked on
+    /// an object, in which case it has a pending operation).
+    fn is_parked(&self) -> bool {
+        self.is_blocked() && self.operation.is_none()
+    }
+
+    /// Unpark a thread's state. A parked thread is woken. Any other live
+    /// thread, whether it is running, has yielded, or is blocked on a lock, a
+    /// channel or a join, is not parked: the unpark is stored for its next
+    /// call to `park`, and its state is left alone.
     fn set_unparked(&mut self) {
-        if self.is_blocked() || self.is_yield() {
+        if self.is_parked() {
             self.set_runnable();
-        } else if self.is_runnable() {
-            self.state = State::Runnable { unparked: true }
+        } else if !self.is_terminated() {
+            self.park_token = true;
         }
+    }
+
+    /// Wake a thread that waits for a notification on an object (`Notify`,
+    /// `JoinHandle`): the notifier's causality is transferred and the thread
+    /// becomes runnable. Unlike `unpark` this is not a park token.
+    pub(crate) fn notified(&mut self, notifier: &Thread) {
+        self.causality.join(&notifier.causality);
+        self.set_runnable();
+    }
+
+    /// Consume the park token, if there is one.
+    pub(crate) fn take_park_token(&mut self) -> bool {
+        std::mem::replace(&mut self.park_token, false)
     }
 }
 
